@@ -138,6 +138,7 @@ type Case struct {
 	Value   *ValueIn  `json:"value,omitempty"`
 	Redeem  *RedeemIn `json:"redeem,omitempty"`
 	Uncles  *UnclesIn `json:"uncles,omitempty"`
+	Disc    *DiscIn   `json:"disc,omitempty"`
 }
 
 // ---------------------------------------------------------------- Coq printing
@@ -264,6 +265,7 @@ func frontOf(owner []byte) []byte { // contract A_i that calls owner contract B_
 
 type world struct {
 	blockSalt int
+	path  string // leveldb directory ("" for memorydb)
 	db    ethdb.Database
 	sdb   *state.StateDB
 	batch ethdb.Batch
@@ -366,15 +368,45 @@ func newWorld(backend, dir string) *world {
 		if err != nil {
 			panic(err)
 		}
-		d, err := leveldb.New(p, 16, 16, "", false, logger, loc)
-		if err != nil {
-			panic(err)
-		}
-		w.db = rawdb.NewDatabase(d)
+		w.path = p
+		w.openLevel()
 		w.close = func() { w.db.Close(); os.RemoveAll(p) }
 	default:
 		panic("backend " + backend)
 	}
+	w.openState()
+	return w
+}
+
+func (w *world) openLevel() {
+	d, err := leveldb.New(w.path, 16, 16, "", false, logger, loc)
+	if err != nil {
+		panic(err)
+	}
+	w.db = rawdb.NewDatabase(d)
+}
+
+// restart = what a node restart does to the lockup store: the block batch is flushed, the database is
+// closed and opened again from its files (leveldb only; nothing to reopen for memorydb or once a
+// HeaderChain holds the handle), and a fresh StateDB / pending batch are built over the new handle.
+func (w *world) restart() bool {
+	if err := w.batch.Write(); err != nil {
+		panic(err)
+	}
+	if w.path == "" || w.hc != nil {
+		w.batch = w.db.NewBatch()
+		w.batch.SetPending(true)
+		return false
+	}
+	if err := w.db.Close(); err != nil {
+		panic(err)
+	}
+	w.openLevel()
+	w.openState()
+	return true
+}
+
+func (w *world) openState() {
 	sdb, err := state.New(types.EmptyRootHash, types.EmptyRootHash, big.NewInt(0), state.NewDatabase(w.db), state.NewDatabase(w.db), nil, loc, logger)
 	if err != nil {
 		panic(err)
@@ -406,7 +438,6 @@ func newWorld(backend, dir string) *world {
 		sdb.SetCode(bi, codeB)
 		sdb.SetCode(ai, codeA)
 	}
-	return w
 }
 
 func (w *world) read(owner, miner []byte, lb uint8, epoch uint32) Rec {
@@ -561,6 +592,10 @@ func (w *world) step(o LOp) LOut {
 		}
 		return r
 	case "commit":
+		if o.N == 1 { // commit + node restart (printed as OCommit: the model's ledger is the durable view)
+			w.restart()
+			return LOut{Kind: "none"}
+		}
 		if err := w.batch.Write(); err != nil {
 			panic(err)
 		}
@@ -887,6 +922,16 @@ func corpus() []Case {
 		mkClaim(0, ownersBad[1], m1, t1, 1, 1, floorE(100+depths[1])), mkClaim(2, o3, m1, t1, 1, 1, floorE(100+depths[1])),
 		mkGet(o1, m1, 1, 1), mkClaim(0, o1, m1, t1, 1, 1, floorE(100+depths[1])),
 	})
+	// node restarts in between (leveldb: closed and reopened from its files): rewards accumulated before and
+	// after a restart land in one tranche, a claim made before the restart stays made, a failed-transaction undo
+	// and an unflushed add survive as what the flushed batch said, a claimed key can start a new tranche later
+	re := LOp{K: "commit", N: 1}
+	both("restart", []LOp{
+		mkAdd(o1, m1, delegs[1], 0, 100, "100"), mkAdd(o2, m2, zero20, 1, 100, "40"), re, mkAdd(o1, m1, delegs[2], 0, 101, "50"), mkGet(o1, m1, 0, 1),
+		mkClaim(0, o1, m1, t1, 0, 1, th-1), re, mkClaim(1, o1, m1, t1, 0, 1, th), re, mkGet(o1, m1, 0, 1), mkClaim(2, o1, m1, t1, 0, 1, th), re,
+		mkClaim(0, o1, m1, t1, 0, 1, th+1), mkGet(o1, m1, 0, 1), mkAdd(o1, m1, zero20, 0, 102, "9"), re, mkGet(o1, m1, 0, 1),
+		mkClaim(2, o2, m2, t1, 1, 1, floorE(100+depths[1])), re, mkClaim(0, o2, m2, t1, 1, 1, floorE(100+depths[1])), mkClaim(0, o1, m1, t1, 0, 1, th+2),
+	})
 	// failed transaction: the deletion is undone, nothing is paid; then a good claim pays everything
 	both("failed-tx-undo", []LOp{
 		mkAdd(o2, m1, delegs[1], 0, 100, "321"), mkClaim(1, o2, m1, t1, 0, 1, th), mkGet(o2, m1, 0, 1), {K: "commit"},
@@ -958,6 +1003,47 @@ func corpus() []Case {
 		mkAdd(o1, m1, zero20, 0, 103, "8"), mkAdd(o3, m2, zero20, 3, 103, "80"), mkAdd(o3, m2, zero20, 3, 103, "80"), be, rb(3), mkGet(o1, m1, 0, 1), mkGet(o3, m1, 2, 1), mkGet(o3, m2, 3, 1),
 		mkAdd(o1, m1, zero20, 0, 101, "16"), be, mkAdd(o3, m2, zero20, 3, 102, "3"), be, rb(1), mkClaim(0, o1, m1, t1, 0, 1, th), mkGet(o3, m2, 3, 1), rb(5), mkGet(o1, m1, 0, 1),
 	})
+	// a LARGE orphaned block (up to 33 coinbase ETXs fit in one block with 32 workshares; more through claims): the undo
+	// record of a block keeps one (key, replaced value) entry per credit in chronological order, and several entries share
+	// a key; the rollback must bring every tranche back to its PRE-block value whatever the number / interleaving of entries
+	type trT struct {
+		o, m []byte
+		lb   uint8
+	}
+	trs := []trT{{o1, m1, 0}, {o1, m2, 0}, {o2, m1, 1}, {o2, m2, 1}, {o3, m1, 2}, {o3, m2, 3}, {o2, m1, 0}}
+	for si, size := range []int{12, 13, 17, 24, 33, 48} {
+		var ops []LOp
+		pre := 5 // tranches that exist before the big block; the others are created inside it
+		if si%2 == 1 {
+			pre = 7
+		}
+		for i := 0; i < pre; i++ {
+			ops = append(ops, mkAdd(trs[i].o, trs[i].m, delegs[i%3], trs[i].lb, 100, fmt.Sprint(1000+i)))
+		}
+		ops = append(ops, be)
+		x := uint32(size)*2654435761 + 12345
+		for i := 0; i < size; i++ {
+			j := i % len(trs)
+			if si >= 2 { // pseudo-random interleaving
+				x = x*1664525 + 1013904223
+				j = int(x>>16) % len(trs)
+			}
+			ops = append(ops, mkAdd(trs[j].o, trs[j].m, delegs[(i+j)%3], trs[j].lb, 101, fmt.Sprint(1000000*(i+1))))
+		}
+		ops = append(ops, be, rb(1))
+		for _, t := range trs {
+			ops = append(ops, mkGet(t.o, t.m, t.lb, 1))
+		}
+		ops = append(ops, mkAdd(o1, m1, zero20, 0, 101, "3"), be)
+		for _, t := range trs {
+			ops = append(ops, mkClaim(0, t.o, t.m, t1, t.lb, 1, floorE(100+depths[t.lb])))
+		}
+		backend := "memorydb"
+		if si%2 == 0 {
+			backend = "leveldb"
+		}
+		cs = append(cs, Case{Kind: "ledger", Backend: backend, Tag: fmt.Sprintf("reorg-large-block-%d", size), Ops: ops})
+	}
 	return cs
 }
 
@@ -987,6 +1073,24 @@ func genReorgHistory(r *hlib.Rng) []LOp {
 		}
 	}
 	ops = append(ops, LOp{K: "blockend"})
+	if r.Chance(25) {
+		// one large block crediting the history's tranches again and again (13..40 undo entries, shared keys), orphaned below
+		var adds []LOp
+		for _, o := range base {
+			if o.K == "add" && o.Add.SenderOk {
+				adds = append(adds, o)
+			}
+		}
+		if len(adds) > 0 {
+			size := 13 + r.Intn(28)
+			for i := 0; i < size; i++ {
+				a := *adds[r.Intn(len(adds))].Add
+				a.Value = fmt.Sprint(1000 + 17*i)
+				ops = append(ops, LOp{K: "add", Add: &a})
+			}
+			ops = append(ops, LOp{K: "blockend"})
+		}
+	}
 	if r.Chance(50) {
 		ops = append(ops, LOp{K: "rollback", N: 1 + r.Intn(2)})
 		for _, o := range base {
@@ -1143,7 +1247,11 @@ func genHistory(r *hlib.Rng) []LOp {
 				ops = append(ops, LOp{K: "getlatest", Get: &GetA{Owner: t.owner, Miner: t.miner, Lb: t.lb, Height: b}})
 			}
 		case 4:
-			ops = append(ops, LOp{K: "commit"})
+			if r.Chance(40) {
+				ops = append(ops, LOp{K: "commit", N: 1}) // with a restart (effective on leveldb)
+			} else {
+				ops = append(ops, LOp{K: "commit"})
+			}
 		}
 	}
 	return ops
@@ -1665,6 +1773,13 @@ func main() {
 			nontriv = out.accepted > 0 && out.dupRej > 0
 			fp = "U:" + fmt.Sprint(out.verdicts)
 			rep.Count("case/uncles")
+		case "discount":
+			cls, got, eff := runDiscount(c, rep)
+			rw, _ := new(big.Int).SetString(c.Disc.Reward, 10)
+			body = fmt.Sprintf("CDiscount %d %d %d %s %d %s", eff.Pid, eff.Ts, eff.Sig, cz(rw), cls, cz(got))
+			nontriv = cls == 0 && got.Sign() > 0 && got.Cmp(rw) < 0
+			fp = fmt.Sprintf("D:%d:%s", eff.Pid, discClass(eff))
+			rep.Count("case/discount")
 		default:
 			panic("kind " + c.Kind)
 		}
@@ -1725,6 +1840,9 @@ func main() {
 	ru := r.Fork()
 	for i := 0; i < f.N/2; i++ {
 		next(genUncles(ru))
+	}
+	for _, c := range discountCases(r.Fork(), f.N) { // forked last: the streams of the older generators are unchanged
+		next(c)
 	}
 	cw.Close()
 	rep.Note(fmt.Sprintf("params: depths=%v epoch=%d conversionLock=%d", depths, E, params.ConversionLockPeriod))
